@@ -2748,6 +2748,196 @@ def _clauses(ctx, spec, s, rng, kind):
                         f'of radius {r} that does not cross the cut', rep)
 
 
+# ------------------------------------------------------------------------------------------
+# a hair off the half-planes y = 0 (round 7): field points at |y/x| = 2^-k, k = 10 .. 1074, and 10^-k, k = 3 .. 323 (down to
+# subnormal y), above and below the cut (x < 0) and above and below the half-plane ahead of the line (x > 0, nothing special
+# there).  "continuous elsewhere" evaluated directly: two points on the same side of the cut at the same x differ by no more
+# than Lipschitz constant x distance (so a point 1e-17 |x| below the cut has the lower-side value, not the upper-side one),
+# upper minus lower value at the same |y| is b (x < 0) / 0 (x > 0) up to the same bound; for the isotropic solver also the
+# independent closed form (math.atan2) and the value of theta().
+# What is NOT demanded (docs/C12.md, candidate C12-cand-theta-upper-band): the isotropic solver's theta() is arctan(y/x) + pi
+# for x < 0, which rounds to pi (and is then wrapped to -pi) for 0 < y < 2^-52 |x|: points within one rounding of the angle
+# ABOVE the cut carry the lower-side value on the unchanged tree.  The upper side is decided for |y/x| >= 2^-50 only.
+# ------------------------------------------------------------------------------------------
+CUT_QS = sorted({2.0 ** -k for k in range(10, 1075)} | {float(f'1e-{k}') for k in range(3, 324)}, reverse=True)
+CUT_UPPER_Q = 2.0 ** -50
+CUT_ROTATED_Q = 2.0 ** -40      # in a frame that is not axis-aligned pos.n is known to round-off of |pos| only
+
+
+def _signed_axis_frame(rng):
+    """m, n = two different coordinate axes with signs (24 frames), given by name where the API has a name for them"""
+    i, j = rng.sample(range(3), 2)
+    out = []
+    for a in (i, j):
+        sg = rng.choice([1.0, 1.0, -1.0])
+        out.append('xyz'[a] if sg > 0 and rng.random() < 0.5 else [sg if c == a else 0.0 for c in range(3)])
+    return out
+
+
+def _cut_band_case(ctx, spec, kind, xs, z):
+    np = _np()
+    rep0 = {'op': 'cutband', 'solver': kind, 'spec': spec, 'xs': list(xs), 'z': z}
+    st, s = _outcome_obj(spec, kind)
+    if st != 'ok':
+        if st != 'err:value':
+            ctx.violate(f'{kind}:cutband-raises', f'{kind}: {st}: {s}', rep0)
+        return
+    if _near_degenerate(s):
+        return
+    m, n, xi, b = s.m, s.n, s.ξ, s.burgers
+    bn = float(np.linalg.norm(b))
+    aligned = all(sorted(np.abs(v).tolist()) == [0.0, 0.0, 1.0] for v in (m, n))
+    iso = not hasattr(s, 'A')
+    qs = [q for q in CUT_QS if aligned or q >= CUT_ROTATED_Q]
+    pmin = 1.0 if iso else float(np.abs(np.imag(s.p)).min())
+    if not aligned:
+        z = 0.0                 # |pos| = |x|: the frame coordinates of the points are known to 2^-52 |x|
+    for x in xs:
+        ax = abs(x)
+        ql = np.array([q for q in qs if ax * q > 0.0])
+        ys = ax * ql
+        nq = len(ql)
+        base = x * m + z * xi
+        up, dn = base + np.outer(ys, n), base - np.outer(ys, n)
+        ref = ax * (0.6 * m + 0.8 * n) + z * xi
+        P = np.concatenate([up, dn, ref.reshape(1, 3)])
+        P0 = P.copy()
+        rep = dict(rep0, x=x)
+        stU, U = _call(s.displacement, P)
+        stE, E = _call(s.strain, P[[0, nq]])
+        if stU != 'ok' or stE != 'ok':
+            ctx.violate(f'{kind}:cutband-raises', f'{kind}: fields at {2 * nq + 1} points next to the half-planes y = 0 (x = {x}): '
+                        f'{stU if stU != "ok" else stE}', rep)
+            continue
+        if not np.array_equal(P, P0):
+            ctx.violate(f'{kind}:input-modified', f'{kind}: displacement() changed the caller\'s array of points', rep)
+            P = P0.copy()
+        # which rows the property decides: see the header (isotropic upper band; products Im(p) y that underflow to zero:
+        # candidate C12-cand-stroh-subnormal-y, there the sign of y is lost and the displacement may come out complex)
+        ok_dn = ys * pmin >= 2.0 ** -1073
+        ok_up = ok_dn & ((ql >= CUT_UPPER_Q) if (iso and x < 0) else np.ones(nq, dtype=bool))
+        if not ok_up.any():
+            continue
+        dec = np.concatenate([ok_up, ok_dn, [True]])
+        shape_ok = np.shape(U) == (2 * nq + 1, 3) and np.shape(E) == (2, 3, 3)
+        if shape_ok and np.iscomplexobj(U) and not np.abs(np.imag(U[dec])).max() > 0:
+            U = np.real(U)          # (an undecided row made the whole array complex; the decided rows are real)
+        if not shape_ok or np.iscomplexobj(U) or np.iscomplexobj(E) or not np.isfinite(U[dec]).all():
+            bad = [] if not shape_ok else [i for i in np.nonzero(dec)[0] if np.abs(np.imag(U[i])).max() > 0 or not np.isfinite(U[i]).all()]
+            ctx.violate(f'{kind}:cut-band-complex', f'{kind}: displacement / strain at points off the line and off the cut is complex, '
+                        f'non-finite or mis-shaped (shapes {np.shape(U)}, {np.shape(E)})' +
+                        (f', e.g. u({P[bad[0]].tolist()}) = {U[bad[0]].tolist()}' if bad else ''), rep)
+            continue
+        Uu, Ud, Ur = U[:nq], U[nq:2 * nq], U[2 * nq]
+        es = max(float(np.abs(E).max()), bn / (2 * math.pi * ax))
+        lip = 20.0 * es * ax                       # bound of |du| per unit of y/|x| near these half-planes
+        us = bn * (abs(math.log(ax)) + 4)
+        if not iso:
+            us = max(us, float(_field_scales(s, P[[0, nq]])[1].max()))
+        noise = 1e-12 * us
+        ctx.stats.case('oracle:cut-band', (kind, x, z, str(spec['m']), str(spec['n']), tuple(b), str(spec['cij'])),
+                       sample={'op': 'points a hair off the half-planes y = 0', 'solver': kind, 'x': x, 'aligned frame': bool(aligned),
+                               'ratios |y/x|': [float(ql[0]), float(ql[-1])], 'points': 2 * nq,
+                               'decided below / above': [int(ok_dn.sum()), int(ok_up.sum())],
+                               'jump at the smallest decided |y|': (Uu[ok_up][-1] - Ud[ok_up][-1]).tolist()})
+        where = 'the cut' if x < 0 else 'the half-plane ahead of the line (y = 0, x > 0)'
+        found = False
+        # ---- same side, same x: continuity ------------------------------------------------------------------------
+        for side, V, okv, pts in (('below', Ud, ok_dn, dn), ('above', Uu, ok_up, up)):
+            idx = np.nonzero(okv)[0]
+            if len(idx) < 2:
+                continue
+            d = np.abs(np.diff(V[idx], axis=0)).max(axis=1)
+            bound = lip * (ql[idx][:-1] - ql[idx][1:]) + noise
+            w = np.nonzero(d > bound)[0]
+            if len(w):
+                i0, i1 = int(idx[w[0]]), int(idx[w[0] + 1])
+                ctx.violate(f'{kind}:cut-continuity', f'{kind}: displacement is discontinuous off the cut: two points {side} {where} at '
+                            f'the same x = {x}: u({pts[i0].tolist()}) = {V[i0].tolist()} (|y/x| = {ql[i0]:.3e}), '
+                            f'u({pts[i1].tolist()}) = {V[i1].tolist()} (|y/x| = {ql[i1]:.3e}); difference '
+                            f'{(V[i1] - V[i0]).tolist()}, bound {bound[w[0]]:.3e}, Burgers vector {b.tolist()} '
+                            f'(m = {m.tolist()}, n = {n.tolist()})', dict(rep, point=pts[i1].tolist(), neighbour=pts[i0].tolist()))
+                found = True
+                break
+        # ---- across: upper - lower = b on the cut, 0 ahead of the line ---------------------------------------------
+        both = np.nonzero(ok_dn & ok_up)[0]
+        if len(both) and not found:
+            want = b if x < 0 else np.zeros(3)
+            d = np.abs(Uu[both] - Ud[both] - want).max(axis=1)
+            bound = 2 * lip * ql[both] + noise + (3 * spec['tol'] * bn if x < 0 else 0.0)
+            w = np.nonzero(d > bound)[0]
+            if len(w):
+                i0 = int(both[w[0]])
+                ctx.violate(f'{kind}:cut-jump', f'{kind}: displacement above minus below {where} at x = {x}, |y/x| = {ql[i0]:.3e}: '
+                            f'u({up[i0].tolist()}) - u({dn[i0].tolist()}) = {(Uu[i0] - Ud[i0]).tolist()}, expected {want.tolist()} '
+                            f'(bound {bound[w[0]]:.3e}; m = {m.tolist()}, n = {n.tolist()})', dict(rep, point=up[i0].tolist()))
+                found = True
+        # ---- isotropic solver: the independent closed form (atan2), theta() ------------------------------------------
+        if iso and not found:
+            T = np.array([m, n, xi])
+            be, bn_, bs = (float(v) for v in T.dot(b))
+            mu_, nu_ = float(s.mu), float(s.nu)
+            o_ref = iso_full_oracle(mu_, nu_, be, bn_, bs, 0.6 * ax, 0.8 * ax)[0]
+            stT, TH = _call(s.theta, P)
+            for side, V, okv, pts, sg in (('below', Ud, ok_dn, dn, -1.0), ('above', Uu, ok_up, up, 1.0)):
+                idx = np.nonzero(okv)[0]
+                # every 8th ratio, every ratio around the rounding of the angle, the last ones
+                idx = [int(i) for i in idx if i % 8 == 0 or 2.0 ** -60 <= ql[i] <= 2.0 ** -44 or i >= nq - 4]
+                for i in idx:
+                    y = sg * float(ys[i])
+                    o = T.T.dot(iso_full_oracle(mu_, nu_, be, bn_, bs, x, y)[0] - o_ref)
+                    g = V[i] - Ur
+                    if float(np.abs(g - o).max()) > 1e-11 * us + 3 * spec['tol'] * bn:
+                        ctx.violate(f'{kind}:cut-closed-form', f'{kind}: displacement at {pts[i].tolist()} ({side} {where}, '
+                                    f'|y/x| = {ql[i]:.3e}) minus displacement at {ref.tolist()} is {g.tolist()}, the closed form '
+                                    f'(Hirth & Lothe, atan2) gives {o.tolist()}: off by {(g - o).tolist()}, Burgers vector '
+                                    f'{b.tolist()} (m = {m.tolist()}, n = {n.tolist()})', dict(rep, point=pts[i].tolist()))
+                        found = True
+                        break
+                    if stT == 'ok' and np.shape(TH) == (2 * nq + 1,):
+                        th = float(TH[i if sg > 0 else nq + i])
+                        if abs(th - math.atan2(y, x)) > (1e-15 if aligned else 1e-14):
+                            ctx.violate(f'{kind}:cut-theta', f'{kind}: theta({pts[i].tolist()}) = {th!r}, the angle of the point about the '
+                                        f'line from m towards n is {math.atan2(y, x)!r} ({side} {where}, |y/x| = {ql[i]:.3e})',
+                                        dict(rep, point=pts[i].tolist()))
+                            found = True
+                            break
+                if found:
+                    break
+            if stT != 'ok' or np.shape(TH) != (2 * nq + 1,):
+                ctx.violate(f'{kind}:cut-theta', f'{kind}: theta() of {2 * nq + 1} points: {stT}, shape {np.shape(TH)}', rep)
+        # ---- single points (array, list) = rows of the array ----------------------------------------------------------
+        pick = [int(np.nonzero(ok_up)[0][-1]), nq + int(np.nonzero(ok_dn)[0][-1]), nq + int(np.argmin(np.abs(ql - 2.0 ** -53))),
+                nq + int(np.argmin(np.abs(ql - 1e-17))), 0]
+        for i in pick:
+            if not dec[i]:
+                continue
+            for form in (P[i].copy(), [float(v) for v in P[i]]):
+                st1, u1 = _call(s.displacement, form)
+                if st1 != 'ok' or np.shape(u1) != (3,) or np.iscomplexobj(u1) or float(np.abs(u1 - U[i]).max()) > noise:
+                    ctx.violate(f'{kind}:cut-single', f'{kind}: displacement at the single point {P[i].tolist()} (a {type(form).__name__}) is '
+                                f'{st1 if st1 != "ok" else np.asarray(u1).tolist()}, as a row of an array of {len(P)} points '
+                                f'{U[i].tolist()}', dict(rep, point=P[i].tolist()))
+                    found = True
+                    break
+            if found:
+                break
+
+
+def _cut_band(ctx, spec, rng, kind):
+    """the problem as drawn (its frame may be rotated: ratios down to 2^-40) and in two signed-axis frames (all ratios)"""
+    ls = spec.get('lscale', 1.0)
+    for j in range(3):
+        sp = dict(spec)
+        if j:
+            sp['m'], sp['n'] = _signed_axis_frame(rng)
+            if sp.get('cart_axes'):
+                sp['cart_axes'] = False
+        r = rng.choice([1.0, 3.5, 40.0, 1e-3, 2.0 ** -20, 2.0 ** rng.randint(-30, 30), rng.uniform(0.1, 10.0)]) * ls
+        z = rng.choice([0.0, 0.0, 1.5, -20.0]) * ls
+        _cut_band_case(ctx, sp, kind, [-r, r], z)
+
+
 def _near_degenerate(s):
     """nearly defective sextic eigenproblem (e.g. a hexagonal medium with the line a few mrad off the six-fold axis): the
     eigenvector matrix is ill-conditioned, whether the eigen-solver's output passes the solver's self-checks is luck and
@@ -4223,6 +4413,10 @@ def search(ctx, broken):
             ctx.stats.case('near-degenerate', str(spec), nontrivial=False)
             continue
         _guarded(ctx, 'clauses', kind, spec, lambda: _clauses(ctx, spec, s, rng, kind))
+        # points a hair above / below the half-planes y = 0 (own random stream), every problem; through the entry point too
+        _guarded(ctx, 'cutband', kind, spec, lambda: _cut_band(ctx, spec, random.Random(ctx.seed * 4057 + it), kind))
+        if it % 3 == 1:
+            _guarded(ctx, 'cutband', 'auto', spec, lambda: _cut_band(ctx, spec, random.Random(ctx.seed * 4057 + 500 + it), 'auto'))
         if it % 2 == 0:
             _guarded(ctx, 'covariance', kind, spec, lambda: _covariance(ctx, spec, rng, kind))
         # cross-cutting classes, each on every third problem (and through the entry point on some)
@@ -4304,6 +4498,10 @@ def replay(ctx, payload):
                 fn = {'inplace': _inplace_sequence, 'aliasing': _arg_aliasing, 'argforms': _arg_forms, 'scale': _scale_sweep}[op]
                 _guarded(ctx, op, kind, spec, lambda: fn(ctx, spec, rr, kind))
         print('replay', op, kind, 'violations now:', len(ctx.violations))
+    elif op == 'cutband' and 'spec' in r:
+        kind = r.get('solver', 'iso')
+        _guarded(ctx, 'cutband', kind, r['spec'], lambda: _cut_band_case(ctx, r['spec'], kind, r.get('xs', [-1.0, 1.0]), r.get('z', 0.0)))
+        print('replay points a hair off the cut:', kind, 'violations now:', len(ctx.violations))
     elif op == 'seq' and 'spec' in r and ctx.driver is not None:
         for i in range(20):
             ctx.rng = random.Random(i)
@@ -4503,7 +4701,12 @@ RULE = ('correspondence: positive-definite stiffness of the 7 crystal classes (i
         '19 thorough), N = j s and s + 1 for j = 1, 2, 3 and s = 2^16 // r, 2^20 // r with r in {3, 6, 9, 12, 18, 24, 27, 36, 48, '
         '72, 81, 96, 144, 162, 192, 288} (quick: up to 2^16 + 1), three random N; the points are drawn with repetition from <= 1009 '
         'base points, so EVERY row is compared with a small-array evaluation, stress = C:strain on every row, first / middle / '
-        'last row against single-point calls; solvers alternate (thorough: both). Block lengths outside this list are not covered')
+        'last row against single-point calls; solvers alternate (thorough: both). Block lengths outside this list are not covered. '
+        'round 7: every search problem (Stroh, isotropic, every third through the entry point) in its own frame and in two of the 24 '
+        'signed-axis frames: points x m +- y n + z xi, x = -+r (r in {1, 3.5, 40, 1e-3, 2^-20, 2^j |j| <= 30, random} x length unit), '
+        'y = |x| 2^-k for every k = 10 .. 1074 and |x| 10^-k for every k = 3 .. 323 (rotated frames: down to 2^-40), one array per '
+        'x; same-side continuity chain with a Lipschitz bound, upper - lower = b (x < 0) / 0 (x > 0), isotropic: atan2 closed form and '
+        'theta(); single points = array rows; not decided: isotropic upper side below 2^-50, Stroh rows with |y| min|Im p| < 2^-1073')
 ASSUMPTIONS = [
     'numpy.linalg.eig returns (p_a, (A_a, L_a)) with N v = p v up to the residual recomputed by the driver on every solved '
     'problem (bound 1e-13 x cond(V) x row scale); exact eigenvalue degeneracy is outside the property',
